@@ -13,6 +13,18 @@ Theorem C06_merge_exact :
 Proof. exact sdesc_merge. Qed.
 Print Assumptions C06_merge_exact.
 
+(* Merge is associative and commutative with the new container as unit on everything observable:
+   (a+b)+d and a+(b+d), a+b and b+a, new+a and a+new are described by the same value lists. *)
+Theorem C06_merge_monoid :
+  forall c a va na b vb nb d vd nd,
+    sdesc c a va na -> sdesc c b vb nb -> sdesc c d vd nd ->
+    sdesc c (merge_summ (merge_summ a b) d) (va ++ vb ++ vd) (na + nb + nd) /\
+    sdesc c (merge_summ a (merge_summ b d)) (va ++ vb ++ vd) (na + nb + nd) /\
+    sdesc c (merge_summ a b) (va ++ vb) (na + nb) /\ sdesc c (merge_summ b a) (va ++ vb) (na + nb) /\
+    sdesc c (merge_summ new_summ a) va na /\ sdesc c (merge_summ a new_summ) va na.
+Proof. exact ProofsT.merge_monoid. Qed.
+Print Assumptions C06_merge_monoid.
+
 (* Quantile (as repaired by e5a0cc6): for a non-empty bin with at most 8096 values, Quantile(a/2^b) is
    element floor((n-1)*a/2^b + 1/2) of the sorted VALUES (so q = 0 is the minimum, q = 1 the maximum),
    also when no samples were collected because only 0 and 1 were requested; the index is in range. *)
@@ -157,4 +169,15 @@ Example C06_count_nonvacuous :
   CaseDefs.bin_count q (0%N, 9%N) (ProofsT.selected_docs q t) = 1%N.
 Proof.
   split; [|split; reflexivity]. intros d I. simpl in I. destruct I as [<-|[<-|[<-|[]]]]; discriminate.
+Qed.
+
+(* non-vacuity of C06_any_merge_order: two different splits/orders of the same documents *)
+Example C06_merge_order_nonvacuous :
+  let d1 := Doc 1200 true (Some 1%N) (Some 8) in let d2 := Doc 1300 true None (Some 3) in
+  let d3 := Doc 1900 true (Some 1%N) (Some (-2)) in
+  let t1 := Node (Leaf [d1; d2]) (Leaf [d3]) in let t2 := Node (Node (Leaf [d3]) (Leaf [d1])) (Leaf [d2]) in
+  Permutation (tree_docs t1) (tree_docs t2) /\
+  lookup (0%N, 1%N) (a_bins (eval_tree (Query 0 5000 FSum true 0 [] 9) t2)) = Some (Summ (-2) 8 6 2 0 [] false).
+Proof.
+  split; [|reflexivity]. simpl. apply Permutation_sym. apply (Permutation_cons_app [_; _] [] _). apply Permutation_refl.
 Qed.
